@@ -127,8 +127,17 @@ def kinetic_cases(draw, *, max_datasets=3, allow_full=True, allow_irf=True, iden
         elif n_ds == 1 and sim == "clp" and draw(st.integers(0, 2)) == 0:
             params.setdefault("scale", []).append(["d1", draw(st.sampled_from([0.5, 3.0])), {"vary": False}])
             dd["scale"] = "scale.d1"
+        if i > 0 and irf_kind in ("gaussian", "spectral-gaussian") and draw(st.booleans()):
+            # dataset-level item of its own: same megacomplexes, different IRF (own centre / width parameters)
+            irf_i = copy.deepcopy(spec["irf"]["irf1"])
+            params["irf"] += [[f"center_d{i+1}", draw(st.sampled_from([0.15, 0.5, 0.7])), {}], [f"width_d{i+1}", draw(st.sampled_from([0.08, 0.2, 0.35])), {}]]
+            irf_i.update(center=f"irf.center_d{i+1}", width=f"irf.width_d{i+1}")
+            spec["irf"][f"irf{i+1}"] = irf_i
+            dd["irf"] = f"irf{i+1}"
         spec["dataset"][lab] = dd
-        datasets[lab] = {"time": _time_axis(draw), "spectral": _spectral_axis(draw) if (i == 0 or draw(st.booleans())) else None,
+        same_time = i > 0 and draw(st.booleans())
+        datasets[lab] = {"time": list(datasets["dataset_1"]["time"]) if same_time else _time_axis(draw),
+                         "spectral": _spectral_axis(draw) if (i == 0 or draw(st.booleans())) else None,
                          "clp_seed": draw(st.integers(0, 10**6)), "noise": 0.0, "noise_seed": draw(st.integers(0, 10**6))}
         if datasets[lab]["spectral"] is None:
             datasets[lab]["spectral"] = list(datasets["dataset_1"]["spectral"])
